@@ -545,3 +545,9 @@ HARMLESS += [
     # progress reported before the write instead of after it
     dict(id="H-C14-write-progress-first", prop="C14", file=RSF, old="                                drop(sizes_guard);\n", new="                                drop(sizes_guard);\n                                p.inc(size);\n"),
 ]
+
+CPYF2 = "crates/core/src/commands/copy.rs"
+MUTATIONS += [
+    dict(id="C12-copy-subtrees-not-collected", prop="C12", file=CPYF2, old="                NodeType::Dir => {\n                    tree_ids.extend(node.subtree.into_iter().filter(filter_tree));\n                }", new="                NodeType::Dir => {}"),
+    dict(id="C12-copy-symlinks-treated-as-files-only", prop="C12", file=CPYF2, old="                NodeType::File => {\n                    data_ids.extend(node.content.into_iter().flatten().filter(filter_data));", new="                NodeType::Symlink { .. } => {\n                    data_ids.extend(node.content.into_iter().flatten().filter(filter_data));"),
+]
